@@ -746,3 +746,84 @@ def index_loops_repo(repo) -> int:
         if isinstance(f, FuncInfo) and f.outer is None:
             n += index_loops_function(f.node)
     return n
+
+
+# --------------------------------------------------------------------------- C10: test flags
+def inline_test_flags_function(fn) -> int:
+    """C10: a local bound exactly once to a side-effect free test over names that are never re-bound in
+    the function (``flag = x is not None`` / ``isinstance(x, T)`` / a comparison / and-or-not of those)
+    and read only inside tests is replaced by that test where it is read."""
+    from .astutil import clone
+
+    stores: dict[str, int] = {}
+    for n in ast.walk(fn):
+        if isinstance(n, ast.Name) and isinstance(n.ctx, (ast.Store, ast.Del)):
+            stores[n.id] = stores.get(n.id, 0) + 1
+        elif isinstance(n, ast.arg):
+            stores[n.arg] = stores.get(n.arg, 0)
+    nested = [n for n in ast.walk(fn) if isinstance(n, (ast.FunctionDef, ast.AsyncFunctionDef, ast.Lambda, ast.ClassDef)) and n is not fn]
+    nested_names = {x.id for n in nested for x in ast.walk(n) if isinstance(x, ast.Name)}
+
+    def pure_test(e) -> bool:
+        if isinstance(e, ast.BoolOp):
+            return all(pure_test(v) for v in e.values)
+        if isinstance(e, ast.UnaryOp) and isinstance(e.op, ast.Not):
+            return pure_test(e.operand)
+        if isinstance(e, ast.Compare):
+            return all(isinstance(x, (ast.Name, ast.Constant)) or (isinstance(x, ast.Attribute) and isinstance(x.value, ast.Name)) for x in [e.left] + list(e.comparators)) and all(isinstance(o, (ast.Is, ast.IsNot, ast.Eq, ast.NotEq, ast.Lt, ast.LtE, ast.Gt, ast.GtE)) for o in e.ops)
+        if isinstance(e, ast.Call) and isinstance(e.func, ast.Name) and e.func.id == "isinstance" and len(e.args) == 2 and isinstance(e.args[0], ast.Name):
+            return True
+        return False
+
+    cands = {}
+    for st in ast.walk(fn):
+        if isinstance(st, (ast.Assign, ast.AnnAssign)) and getattr(st, "value", None) is not None:
+            tg = st.targets if isinstance(st, ast.Assign) else [st.target]
+            if len(tg) == 1 and isinstance(tg[0], ast.Name) and stores.get(tg[0].id, 0) == 1 and tg[0].id not in nested_names and pure_test(st.value):
+                roots = {x.id for x in ast.walk(st.value) if isinstance(x, ast.Name) and x.id != "isinstance"}
+                if all(stores.get(r, 0) == 0 for r in roots if r in stores) and not any(isinstance(x, ast.Attribute) for x in ast.walk(st.value)):
+                    # must be a statement of the function's top-level block (dominates every use)
+                    if any(st is b for b in fn.body):
+                        cands[tg[0].id] = st
+    if not cands:
+        return 0
+    # every read sits in a test position
+    test_ids = set()
+    for n in ast.walk(fn):
+        if isinstance(n, (ast.If, ast.While, ast.IfExp)):
+            for x in ast.walk(n.test):
+                test_ids.add(id(x))
+        elif isinstance(n, ast.Assert):
+            for x in ast.walk(n.test):
+                test_ids.add(id(x))
+    for n in ast.walk(fn):
+        if isinstance(n, ast.Name) and isinstance(n.ctx, ast.Load) and n.id in cands and id(n) not in test_ids:
+            cands.pop(n.id, None)
+    if not cands:
+        return 0
+    changed = 0
+
+    class S(ast.NodeTransformer):
+        def visit_Name(self, n):
+            nonlocal changed
+            if isinstance(n.ctx, ast.Load) and n.id in cands:
+                changed += 1
+                return ast.copy_location(clone(cands[n.id].value), n)
+            return n
+
+    S().visit(fn)
+    drop = {id(st) for st in cands.values()}
+    fn.body = [b for b in fn.body if id(b) not in drop] or [ast.Pass()]
+    ast.fix_missing_locations(fn)
+    par = getattr(fn, "_parent", None)
+    set_parents(fn)
+    fn._parent = par
+    return changed
+
+
+def inline_test_flags_repo(repo) -> int:
+    n = 0
+    for f in list(repo.funcs.values()):
+        if isinstance(f, FuncInfo) and f.outer is None:
+            n += inline_test_flags_function(f.node)
+    return n
